@@ -61,8 +61,9 @@ pub fn run_prog<G: Cv>(env: &Env<G>, prog: &Program, seed: u64) -> Out {
         // an honest proof that is not accepted is C01's business; the transcript discipline is
         // still judged on everything both roles recorded
         Ok(Err(_)) => None,
-        Err(m) => {
-            out.bad.push(("verify returns".into(), format!("panicked: {}", m)));
+        // a panicking verifier on an honest run is C01/C08's business
+        Err(_) => {
+            out.precondition_failed = true;
             return out;
         }
     };
@@ -191,7 +192,7 @@ pub fn run_deviated<G: Cv>(env: &Env<G>, prog: &Program, seed: u64) -> (u64, Vec
         let (accepted, order) = match res {
             Ok(x) => x,
             Err(m) => {
-                bad.push((format!("verify returns ({})", d.name()), format!("panicked: {}", m)));
+                let _ = m; // panics on altered proofs are C08's business
                 continue;
             }
         };
